@@ -48,6 +48,7 @@ type vBatchEnv struct {
 	cancel    context.CancelFunc
 	ownCancel context.CancelFunc // cancels the context that one call of the batch has of its own
 	yield     bool               // the location step is a scheduling point
+	few       bool               // outcomes limited to success / fatal / retry-later
 	maxTries  int
 	violated  string
 }
@@ -107,6 +108,8 @@ func (r *vBatchRC) QueueBatch(ctx context.Context, rpcs []hrpc.Call) {
 		var o int
 		if bc.queued >= e.maxTries {
 			o = verifInt(0, 1) // last permitted attempt: success or fatal
+		} else if e.few {
+			o = verifInt(0, 2) // success, fatal or retry-later
 		} else if e.cancel != nil {
 			o = verifInt(0, 5)
 		} else {
@@ -282,6 +285,7 @@ func VerifSendBatch() {
 func VerifSendBatchOwnContexts() {
 	c, e, ctx := vBatchSetup()
 	e.yield = true
+	e.few = true
 	cctx, ccancel := context.WithCancel(context.Background())
 	own := verifChoose(len(e.calls))
 	p, err := hrpc.NewPut(cctx, []byte("t"), []byte{byte('a' + own)}, map[string]map[string][]byte{"f": {"q": []byte("v")}})
@@ -300,11 +304,18 @@ func VerifSendBatchOwnContexts() {
 	for i, bc := range e.calls {
 		batch[i] = bc.call
 	}
-	res, _ := c.SendBatch(ctx, batch)
+	res, allOK := c.SendBatch(ctx, batch)
 	verifQuiesce()
 	sleepAndIncreaseBackoffOverride, establishRegionOverride = nil, nil
 	ccancel()
 	verifAssert(len(res) == len(e.calls), "one result per call")
+	allNil := true
+	for _, r := range res {
+		if r.Error != nil {
+			allNil = false
+		}
+	}
+	verifAssert(allOK == allNil, "the success flag is true exactly when every result has a nil error")
 	for i, bc := range e.calls {
 		r := res[i]
 		verifAssert(r.Msg != nil || r.Error != nil, "every call ends with a response or an error")
